@@ -295,6 +295,38 @@ def rule_normaliser(ck, name, f):
     return len(uses)
 
 
+def rule_rotation(ck, units):
+    """rotation-unitary: the plane rotation [conj(cs) conj(sn); -sn cs] generated for (dx, dy) is unitary iff |cs|^2 + |sn|^2 = 1.  With
+    t = dy/dx (or dx/dy) and cs = 1/sqrt(1 + q), sn = t cs this needs q = |t|^2; for a complex scalar the plain square t*t is a different
+    (complex) number.  Rule: in the instantiation of generate_plane_rotation for a complex scalar, no sqrt argument contains the product
+    of a complex variable with itself (without conjugation)."""
+    ck.rule('rotation-unitary', 'generate_plane_rotation<complex>: the normalisation sqrt(1 + q) uses q = |t|^2, never the complex square t*t (the least-squares solve of the GMRES '
+                                'family is the residual minimiser only under unitary rotations)', 2)
+    done = set()
+    for u in units.values():
+        for f in u.funcs:
+            if f.q != 'amgcl::solver::detail::generate_plane_rotation' or f.body is None or not f.params:
+                continue
+            t = u.type(f.decl(f.params[0]).get('ct'))
+            if 'complex' not in t or f.full in done:
+                continue
+            done.add(f.full)
+            k = 0
+            for n in sorted(f.nodes.values(), key=lambda x: x['i']):
+                if n['k'] != 'call' or not (n.get('f') or '').split('::')[-1] == 'sqrt':
+                    continue
+                k += 1
+                bad = []
+                for m in walk(n):
+                    if m['k'] in ('bin', 'opcall') and m.get('op') == '*' and m.get('x') is not None and m.get('y') is not None:
+                        a, b = unwrap(m['x']), unwrap(m['y'])
+                        if a is not None and b is not None and a['k'] == 'ref' and b['k'] == 'ref' and a['d'] == b['d'] and 'complex' in u.type(f.decl(a['d']).get('ct')):
+                            bad.append(m)
+                ck.ob('rotation-unitary', 'generate_plane_rotation<%s>|sqrt#%d' % (t.replace('const ', '').strip(), k), f.where(n), not bad, '' if not bad else
+                      '`%s` at %s: the complex square `%s` is used where the squared modulus |%s|^2 is needed - the rotation is not unitary, '
+                      'GMRES / FGMRES / LGMRES do not return the residual minimiser for complex systems' % (show(n)[:70], f.where(n), show(bad[0]), show(bad[0]['x'])))
+
+
 def main(tier):
     ck = Check('C05', tier, 'C05 (clauses): Richardson iteration form, solution / residual lock-step of CG, BiCGStab, IDR(s), per-solve re-initialisation of the recurrence state.')
     T = os.path.join(ir.VERIF, 'tus')
@@ -330,6 +362,8 @@ def main(tier):
     missing = [s for s in c01.SOLVERS if s not in seen]
     if missing:
         ck.brk('solver classes not instantiated: %s' % missing)
+    ipu = ir.run_units([dict(name='ip_unit', src=os.path.join(T, 'ip_unit.cpp'))], 'C05i')
+    rule_rotation(ck, dict(units, **ipu))
     ck.assumptions += ['optimality of the iterates (CG A-norm, GMRES residual minimisation), agreement with dense reference implementations and finite termination are numerical and NOT decided',
                        'the preconditioner P and the matrix A are fixed linear operators during one solve']
     return ck.finish()
